@@ -3,6 +3,7 @@
 package routing
 
 import (
+	"context"
 	"crypto/sha256"
 	"fmt"
 	"math"
@@ -12,9 +13,16 @@ import (
 
 	"github.com/btcsuite/btcd/btcec/v2"
 	"github.com/btcsuite/btcd/btcutil/v2"
+	sphinx "github.com/lightningnetwork/lightning-onion"
+	"github.com/lightningnetwork/lnd/fn/v2"
+	"github.com/lightningnetwork/lnd/htlcswitch"
 	"github.com/lightningnetwork/lnd/internal/verifkit"
+	"github.com/lightningnetwork/lnd/lntypes"
 	"github.com/lightningnetwork/lnd/lnwire"
+	paymentsdb "github.com/lightningnetwork/lnd/payments/db"
+	"github.com/lightningnetwork/lnd/record"
 	"github.com/lightningnetwork/lnd/routing/route"
+	"github.com/lightningnetwork/lnd/tlv"
 	"github.com/lightningnetwork/lnd/zpay32"
 )
 
@@ -40,8 +48,17 @@ type c19Pol struct {
 	Rh int64 `json:"rh,omitempty"`
 }
 
-// c19Req is one request; -1 means "no limit", empty means "unrestricted".
+// c19TLV is a custom record [type, length of the value].
+type c19TLV struct {
+	T uint64 `json:"t"`
+	N int64  `json:"n"`
+}
+
+// c19Req is one request (Route.tla, "A request is"); -1 means "no limit" /
+// "absent", empty means "unrestricted".
 type c19Req struct {
+	Via        string     `json:"via"`
+	Self       string     `json:"self"`
 	Src        string     `json:"src"`
 	Dst        string     `json:"dst"`
 	Amt        int64      `json:"amt"`
@@ -52,12 +69,27 @@ type c19Req struct {
 	IgnNodes   []string   `json:"ignNodes"`
 	IgnPairs   [][]string `json:"ignPairs"`
 	Hints      []c19Pol   `json:"hints"`
+	Nodes      []string   `json:"nodes"`
 	FinalDelta int64      `json:"finalDelta"`
 	Height     int64      `json:"height"`
+
+	// Final-hop payload ingredients and multi-part settings.
+	Pay      int64    `json:"pay"`
+	PayAddr  int64    `json:"payAddr"`
+	Meta     int64    `json:"meta"`
+	Recs     []c19TLV `json:"recs"`
+	FhRecs   int64    `json:"fhRecs"`
+	Enc      int64    `json:"enc"`
+	MppDest  int64    `json:"mppDest"`
+	MaxParts int64    `json:"maxParts"`
+	Shards   int64    `json:"shards"`
+	MaxShard int64    `json:"maxShard"`
+	MinShard int64    `json:"minShard"`
 }
 
 type c19Line struct {
 	A     string   `json:"a"`
+	Fam   string   `json:"fam"`
 	Graph []c19Pol `json:"graph"`
 	Req   *c19Req  `json:"req"`
 }
@@ -127,12 +159,57 @@ func c19Policy(p *c19Pol) *testChannelPolicy {
 	}
 }
 
+// c19Ctx is what the entry points of one graph are served from.
+type c19Ctx struct {
+	g      *testGraphInstance
+	self   route.Vertex
+	hints  bandwidthHints
+	router *ChannelRouter
+	height uint32
+}
+
+// c19MC stands in for mission control: every pair has probability one, except
+// the ignored nodes and pairs of the request being served (lnrpc/routerrpc
+// translates ignored nodes / pairs into a zero probability in the same way).
+type c19MC struct {
+	nodes map[route.Vertex]struct{}
+	pairs map[DirectedNodePair]struct{}
+}
+
+func (m *c19MC) ReportPaymentFail(uint64, *route.Route, *int,
+	lnwire.FailureMessage) (*paymentsdb.FailureReason, error) {
+
+	return nil, nil
+}
+
+func (m *c19MC) ReportPaymentSuccess(uint64, *route.Route) error {
+	return nil
+}
+
+func (m *c19MC) GetProbability(from, to route.Vertex, _ lnwire.MilliSatoshi,
+	_ btcutil.Amount) float64 {
+
+	if _, ok := m.nodes[from]; ok {
+		return 0
+	}
+	if _, ok := m.pairs[DirectedNodePair{From: from, To: to}]; ok {
+		return 0
+	}
+
+	return 1
+}
+
 // TestVerifC19Route builds every TLC-generated graph with the package's own
 // fixture (createTestGraphFromChannels: a real graph DB, with and without the
-// graph cache), answers the generated requests with the real findPath +
-// newRoute exactly as ChannelRouter.FindRoute composes them, and records the
-// returned route field by field.  It contains no judgement: RouteTrace.tla
-// decides whether a recorded route is valid.
+// graph cache) and answers the generated requests through the entry point
+// each request names: findPath + newRoute composed as FindRoute does,
+// ChannelRouter.FindRoute (also from a foreign source),
+// paymentSession.RequestRoute (payment metadata, payment secret, custom
+// records, multi-part settings) or ChannelRouter.BuildRoute.  The returned
+// route is recorded field by field together with the payload records of every
+// hop and the size oracles (serialized payload bytes, sphinx.NewOnionPacket).
+// It contains no judgement: RouteTrace.tla decides whether a recorded route
+// is valid.
 func TestVerifC19Route(t *testing.T) {
 	dir := os.Getenv("VERIF_SCHED")
 	out := verifkit.MustWriter(verifkit.Env("VERIF_OUT", ".") + "/trace.ndjson")
@@ -165,10 +242,12 @@ func c19RunGraph(t *testing.T, out *verifkit.Writer, file string,
 	lines []c19Line, useCache bool) (int, int) {
 
 	graph := lines[0].Graph
-	src := "a"
+
+	// The node that runs the pathfinder, and the height it is at.
+	self, height := "a", int64(100)
 	for _, l := range lines[1:] {
 		if l.Req != nil {
-			src = l.Req.Src
+			self, height = l.Req.Self, l.Req.Height
 			break
 		}
 	}
@@ -206,30 +285,63 @@ func c19RunGraph(t *testing.T, out *verifkit.Writer, file string,
 			c19Policy(p1), c19Policy(p2), id,
 		))
 
-		// Local bandwidth: the spendable balance of the source's own
-		// channels, as the switch would report it.
+		// Local bandwidth: the spendable balance of the pathfinding
+		// node's own channels, as the switch would report it.
 		for _, r := range recs {
-			if r.To == src {
+			if r.To == self {
 				hints[id] = lnwire.MilliSatoshi(r.Bw)
 			}
 		}
 		for _, r := range recs {
-			if r.From == src {
+			if r.From == self {
 				hints[id] = lnwire.MilliSatoshi(r.Bw)
 			}
 		}
 	}
 
-	ctx := newPathFindingTestContext(t, useCache, tcs, src)
-	ctx.bandwidthHints = &mockBandwidthHints{hints: hints}
-	g := ctx.testGraphInstance
+	g, err := createTestGraphFromChannels(t, useCache, tcs, self)
+	if err != nil {
+		t.Fatalf("%s: graph: %v", file, err)
+	}
+
+	// The links of the pathfinding node report the generated bandwidth
+	// (FindRoute, RequestRoute and BuildRoute query them through the real
+	// bandwidth manager; findPath is given the same numbers as hints).
+	for id, bw := range hints {
+		g.links[lnwire.NewShortChanIDFromInt(id)] = &mockLink{
+			bandwidth: bw,
+		}
+	}
+
+	ctx := &c19Ctx{
+		g:      g,
+		self:   g.aliasMap[self],
+		hints:  &mockBandwidthHints{hints: hints},
+		height: uint32(height),
+	}
+
+	// A ChannelRouter with the configuration FindRoute and BuildRoute
+	// read: own node, graph, chain height, link lookup.
+	ctx.router = &ChannelRouter{cfg: &Config{
+		SelfNode:          ctx.self,
+		RoutingGraph:      g.v1Graph,
+		Chain:             newMockChain(ctx.height),
+		GetLink:           g.getLink,
+		PathFindingConfig: *testPathFindingConfig,
+		TrafficShaper:     fn.None[htlcswitch.AuxTrafficShaper](),
+	}}
 
 	cache := 0
 	if useCache {
 		cache = 1
 	}
+	fam := lines[0].Fam
+	if fam == "" {
+		fam = "rand"
+	}
 	out.Emit(verifkit.Rec{
-		"a": "Graph", "graph": graph, "file": file, "cache": cache,
+		"a": "Graph", "fam": fam, "graph": graph, "file": file,
+		"cache": cache,
 	})
 
 	found, none := 0, 0
@@ -250,7 +362,13 @@ func c19RunGraph(t *testing.T, out *verifkit.Writer, file string,
 		if q.Hints == nil {
 			q.Hints = []c19Pol{}
 		}
-		res := c19Query(ctx, g, q)
+		if q.Nodes == nil {
+			q.Nodes = []string{}
+		}
+		if q.Recs == nil {
+			q.Recs = []c19TLV{}
+		}
+		res := c19Query(ctx, q)
 		if res["found"] == 1 {
 			found++
 		} else {
@@ -265,20 +383,106 @@ func c19RunGraph(t *testing.T, out *verifkit.Writer, file string,
 func c19NoRoute(err string) verifkit.Rec {
 	return verifkit.Rec{
 		"found": 0, "err": err, "src": "", "totalAmt": 0, "totalTL": 0,
-		"totalFees": 0, "recvAmt": 0, "payload": 0,
+		"totalFees": 0, "recvAmt": 0, "packed": 0, "onionOk": 0,
 		"hops": []verifkit.Rec{},
 	}
 }
 
-// c19Query answers one request the way ChannelRouter.FindRoute does:
-// findPath with finalHtlcExpiry = height + final delta, then newRoute.  The
+// c19RouteHints converts the hop hints of a request into zpay32 route hints
+// (chains in forward order).
+func c19RouteHints(g *testGraphInstance, q *c19Req) [][]zpay32.HopHint {
+	var (
+		routeHints [][]zpay32.HopHint
+		order      []int64
+		byRh       = map[int64][]c19Pol{}
+	)
+	for _, h := range q.Hints {
+		if _, ok := byRh[h.Rh]; !ok {
+			order = append(order, h.Rh)
+		}
+		byRh[h.Rh] = append(byRh[h.Rh], h)
+	}
+	for _, rh := range order {
+		var chain []zpay32.HopHint
+		for i, h := range byRh[rh] {
+			// The schedule must be a chain that ends at the
+			// target (a malformed schedule is a generator error,
+			// not a verdict).
+			next := q.Dst
+			if i+1 < len(byRh[rh]) {
+				next = byRh[rh][i+1].From
+			}
+			if h.To != next {
+				panic(fmt.Sprintf("c19: hop hint %d of route "+
+					"hint %d leads to %s, not %s", i, rh,
+					h.To, next))
+			}
+			from := c19Vertex(g, h.From)
+			pub, err := btcec.ParsePubKey(from[:])
+			if err != nil {
+				panic(err)
+			}
+			chain = append(chain, zpay32.HopHint{
+				NodeID:                    pub,
+				ChannelID:                 h.ID,
+				FeeBaseMSat:               uint32(h.Base),
+				FeeProportionalMillionths: uint32(h.Rate),
+				CLTVExpiryDelta:           uint16(h.Delta),
+			})
+		}
+		routeHints = append(routeHints, chain)
+	}
+
+	return routeHints
+}
+
+// c19Blinded builds an introduction-node-only blinded path to the target
+// whose encrypted recipient data has the requested length.
+func c19Blinded(g *testGraphInstance, q *c19Req) (*BlindedPaymentPathSet,
+	error) {
+
+	target := c19Vertex(g, q.Dst)
+	intro, err := btcec.ParsePubKey(target[:])
+	if err != nil {
+		return nil, err
+	}
+	seed := sha256.Sum256([]byte("verif-blinding-point"))
+	_, blinding := btcec.PrivKeyFromBytes(seed[:])
+
+	return NewBlindedPaymentPathSet([]*BlindedPayment{{
+		BlindedPath: &sphinx.BlindedPath{
+			IntroductionPoint: intro,
+			BlindingPoint:     blinding,
+			BlindedHops: []*sphinx.BlindedHopInfo{{
+				BlindedNodePub: intro,
+				CipherText:     make([]byte, q.Enc),
+			}},
+		},
+		CltvExpiryDelta: uint16(q.FinalDelta),
+		HtlcMaximum:     math.MaxUint32,
+	}})
+}
+
+func c19Features(q *c19Req) *lnwire.FeatureVector {
+	bits := []lnwire.FeatureBit{
+		lnwire.TLVOnionPayloadRequired, lnwire.PaymentAddrOptional,
+	}
+	if q.MppDest == 1 {
+		bits = append(bits, lnwire.MPPOptional)
+	}
+
+	return lnwire.NewFeatureVector(
+		lnwire.NewRawFeatureVector(bits...), lnwire.Features,
+	)
+}
+
+// c19Query answers one request through the entry point it names.  The
 // restrictions are translated as lnrpc/routerrpc does it: the user-level CLTV
-// limit includes the final delta, which is subtracted before path finding;
+// limit includes the final delta (the payment session subtracts it itself);
 // ignored nodes and pairs become a probability of zero; everything else has
 // probability one (no mission control).
-func c19Query(ctx *pathFindingTestContext, g *testGraphInstance,
-	q *c19Req) verifkit.Rec {
-
+func c19Query(ctx *c19Ctx, q *c19Req) verifkit.Rec {
+	g := ctx.g
 	source := c19Vertex(g, q.Src)
 	target := c19Vertex(g, q.Dst)
 	amt := lnwire.MilliSatoshi(q.Amt)
@@ -287,144 +491,306 @@ func c19Query(ctx *pathFindingTestContext, g *testGraphInstance,
 	if q.FeeLimit >= 0 {
 		feeLimit = lnwire.MilliSatoshi(q.FeeLimit)
 	}
-	cltvLimit := uint32(math.MaxUint32)
-	if q.CltvLimit >= 0 {
-		err := ValidateCLTVLimit(
-			uint32(q.CltvLimit), uint16(q.FinalDelta), false,
-		)
-		if err != nil {
-			return c19NoRoute("cltv limit: " + err.Error())
-		}
-		cltvLimit = uint32(q.CltvLimit) - uint32(q.FinalDelta)
-	}
 
-	ignoredNodes := map[route.Vertex]struct{}{}
-	for _, n := range q.IgnNodes {
-		ignoredNodes[c19Vertex(g, n)] = struct{}{}
+	mc := &c19MC{
+		nodes: map[route.Vertex]struct{}{},
+		pairs: map[DirectedNodePair]struct{}{},
 	}
-	ignoredPairs := map[DirectedNodePair]struct{}{}
+	for _, n := range q.IgnNodes {
+		mc.nodes[c19Vertex(g, n)] = struct{}{}
+	}
 	for _, p := range q.IgnPairs {
-		ignoredPairs[DirectedNodePair{
+		mc.pairs[DirectedNodePair{
 			From: c19Vertex(g, p[0]), To: c19Vertex(g, p[1]),
 		}] = struct{}{}
 	}
 
-	restr := RestrictParams{
-		FeeLimit:  feeLimit,
-		CltvLimit: cltvLimit,
-		ProbabilitySource: func(from, to route.Vertex,
-			_ lnwire.MilliSatoshi, _ btcutil.Amount) float64 {
-
-			if _, ok := ignoredNodes[from]; ok {
-				return 0
-			}
-			pair := DirectedNodePair{From: from, To: to}
-			if _, ok := ignoredPairs[pair]; ok {
-				return 0
-			}
-
-			return 1
-		},
-	}
-	if len(q.OutChans) > 0 {
-		restr.OutgoingChannelIDs = q.OutChans
-	}
+	var lastHop *route.Vertex
 	if q.LastHop != "" {
 		lh := c19Vertex(g, q.LastHop)
-		restr.LastHop = &lh
+		lastHop = &lh
 	}
 
-	// Route hints of the invoice: the hop hints are grouped into route
-	// hints (chains in forward order) and converted into additional edges
-	// by the real RouteHintsToEdges, as newPaymentSession and QueryRoutes
-	// do.
-	var hints map[route.Vertex][]AdditionalEdge
-	if len(q.Hints) > 0 {
-		var (
-			routeHints [][]zpay32.HopHint
-			order      []int64
-			byRh       = map[int64][]c19Pol{}
-		)
-		for _, h := range q.Hints {
-			if _, ok := byRh[h.Rh]; !ok {
-				order = append(order, h.Rh)
-			}
-			byRh[h.Rh] = append(byRh[h.Rh], h)
-		}
-		for _, rh := range order {
-			var chain []zpay32.HopHint
-			for i, h := range byRh[rh] {
-				// The schedule must be a chain that ends at
-				// the target (a malformed schedule is a
-				// generator error, not a verdict).
-				next := q.Dst
-				if i+1 < len(byRh[rh]) {
-					next = byRh[rh][i+1].From
-				}
-				if h.To != next {
-					panic(fmt.Sprintf("c19: hop hint %d of "+
-						"route hint %d leads to %s, not %s",
-						i, rh, h.To, next))
-				}
-				from := c19Vertex(g, h.From)
-				pub, err := btcec.ParsePubKey(from[:])
-				if err != nil {
-					panic(err)
-				}
-				chain = append(chain, zpay32.HopHint{
-					NodeID:                    pub,
-					ChannelID:                 h.ID,
-					FeeBaseMSat:               uint32(h.Base),
-					FeeProportionalMillionths: uint32(h.Rate),
-					CLTVExpiryDelta:           uint16(h.Delta),
-				})
-			}
-			routeHints = append(routeHints, chain)
-		}
-		var err error
-		hints, err = RouteHintsToEdges(routeHints, target)
-		if err != nil {
-			return c19NoRoute("RouteHintsToEdges: " + err.Error())
+	var customRecs record.CustomSet
+	if len(q.Recs) > 0 {
+		customRecs = record.CustomSet{}
+		for _, r := range q.Recs {
+			customRecs[r.T] = make([]byte, r.N)
 		}
 	}
 
-	cfg := *testPathFindingConfig
-	height := uint32(q.Height)
-	finalExpiry := int32(q.Height) + int32(q.FinalDelta)
+	routeHints := c19RouteHints(g, q)
 
-	path, err := dbFindPath(
-		ctx.v1Graph, hints, ctx.bandwidthHints, &restr, &cfg, source,
-		target, amt, 0, finalExpiry,
+	var (
+		blinded *BlindedPaymentPathSet
+		err     error
 	)
-	if err != nil {
-		return c19NoRoute("findPath: " + err.Error())
+	if q.Enc >= 0 {
+		blinded, err = c19Blinded(g, q)
+		if err != nil {
+			return c19NoRoute("blinded path: " + err.Error())
+		}
 	}
 
-	rt, err := newRoute(source, path, height, finalHopParams{
-		amt:       amt,
-		totalAmt:  amt,
-		cltvDelta: uint16(q.FinalDelta),
-	}, nil)
-	if err != nil {
-		return c19NoRoute("newRoute: " + err.Error())
+	var rt *route.Route
+	switch q.Via {
+	case "findPath", "FindRoute":
+		cltvLimit := uint32(math.MaxUint32)
+		if q.CltvLimit >= 0 {
+			err := ValidateCLTVLimit(
+				uint32(q.CltvLimit), uint16(q.FinalDelta),
+				false,
+			)
+			if err != nil {
+				return c19NoRoute("cltv limit: " + err.Error())
+			}
+			cltvLimit = uint32(q.CltvLimit) - uint32(q.FinalDelta)
+		}
+		restr := &RestrictParams{
+			FeeLimit:              feeLimit,
+			CltvLimit:             cltvLimit,
+			ProbabilitySource:     mc.GetProbability,
+			LastHop:               lastHop,
+			DestCustomRecords:     customRecs,
+			BlindedPaymentPathSet: blinded,
+		}
+		if len(q.OutChans) > 0 {
+			restr.OutgoingChannelIDs = q.OutChans
+		}
+		if customRecs != nil {
+			restr.DestFeatures = c19Features(q)
+		}
+
+		if q.Via == "FindRoute" {
+			var hints RouteHints
+			if len(routeHints) > 0 {
+				hints, err = RouteHintsToEdges(
+					routeHints, target,
+				)
+				if err != nil {
+					return c19NoRoute("RouteHintsToEdges: " +
+						err.Error())
+				}
+			}
+			var (
+				tgt   = &target
+				final = uint16(q.FinalDelta)
+			)
+			if blinded != nil {
+				tgt, final = nil, 0
+			}
+			req, err := NewRouteRequest(
+				source, tgt, amt, 0, restr, customRecs, hints,
+				blinded, final,
+			)
+			if err != nil {
+				return c19NoRoute("NewRouteRequest: " +
+					err.Error())
+			}
+			rt, _, err = ctx.router.FindRoute(req)
+			if err != nil {
+				return c19NoRoute("FindRoute: " + err.Error())
+			}
+
+			break
+		}
+
+		// findPath + newRoute composed as FindRoute does it.
+		var hints map[route.Vertex][]AdditionalEdge
+		if len(routeHints) > 0 {
+			hints, err = RouteHintsToEdges(routeHints, target)
+			if err != nil {
+				return c19NoRoute("RouteHintsToEdges: " +
+					err.Error())
+			}
+		}
+		cfg := *testPathFindingConfig
+		finalExpiry := int32(q.Height) + int32(q.FinalDelta)
+		path, err := dbFindPath(
+			g.v1Graph, hints, ctx.hints, restr, &cfg, source,
+			target, amt, 0, finalExpiry,
+		)
+		if err != nil {
+			return c19NoRoute("findPath: " + err.Error())
+		}
+		rt, err = newRoute(source, path, uint32(q.Height),
+			finalHopParams{
+				amt:       amt,
+				totalAmt:  amt,
+				cltvDelta: uint16(q.FinalDelta),
+				records:   customRecs,
+			}, nil,
+		)
+		if err != nil {
+			return c19NoRoute("newRoute: " + err.Error())
+		}
+
+	case "RequestRoute":
+		sourceNode, err := g.v1Graph.SourceNode(context.Background())
+		if err != nil {
+			return c19NoRoute("source node: " + err.Error())
+		}
+		sessSrc := &SessionSource{
+			GraphSessionFactory: g.v1Graph,
+			SourceNode:          sourceNode,
+			GetLink:             g.getLink,
+			PathFindingConfig:   *testPathFindingConfig,
+			MissionControl:      mc,
+		}
+		var payHash lntypes.Hash
+		payment := &LightningPayment{
+			Target:             target,
+			Amount:             lnwire.MilliSatoshi(q.Pay),
+			FeeLimit:           feeLimit,
+			CltvLimit:          math.MaxUint32,
+			FinalCLTVDelta:     uint16(q.FinalDelta),
+			DestFeatures:       c19Features(q),
+			DestCustomRecords:  customRecs,
+			RouteHints:         routeHints,
+			OutgoingChannelIDs: q.OutChans,
+			LastHop:            lastHop,
+			MaxParts:           uint32(q.MaxParts),
+			paymentHash:        &payHash,
+		}
+		if q.CltvLimit >= 0 {
+			payment.CltvLimit = uint32(q.CltvLimit)
+		}
+		if q.PayAddr == 1 {
+			payment.PaymentAddr = fn.Some([32]byte{1, 2, 3})
+		}
+		if q.Meta >= 0 {
+			payment.Metadata = make([]byte, q.Meta)
+		}
+		if q.MaxShard > 0 {
+			ms := lnwire.MilliSatoshi(q.MaxShard)
+			payment.MaxShardAmt = &ms
+		}
+		if blinded != nil {
+			payment.BlindedPathSet = blinded
+			payment.Target = route.NewVertex(
+				blinded.TargetPubKey(),
+			)
+			payment.FinalCLTVDelta = blinded.FinalCLTVDelta()
+		}
+		var firstHop lnwire.CustomRecords
+		if q.FhRecs == 1 {
+			firstHop = lnwire.CustomRecords{65540: []byte{1, 2}}
+		}
+
+		sess, err := sessSrc.NewPaymentSession(
+			payment, fn.None[tlv.Blob](),
+			fn.None[htlcswitch.AuxTrafficShaper](),
+		)
+		if err != nil {
+			return c19NoRoute("NewPaymentSession: " + err.Error())
+		}
+		// The smallest shard the session tries is a constant of lnd
+		// (10k sat); it is scaled with the amounts of the universe.
+		sess.(*paymentSession).minShardAmt = lnwire.MilliSatoshi(
+			q.MinShard,
+		)
+		rt, err = sess.RequestRoute(
+			amt, feeLimit, uint32(q.Shards), uint32(q.Height),
+			firstHop,
+		)
+		if err != nil {
+			return c19NoRoute("RequestRoute: " + err.Error())
+		}
+
+	case "BuildRoute":
+		hops := make([]route.Vertex, 0, len(q.Nodes))
+		for _, n := range q.Nodes {
+			hops = append(hops, c19Vertex(g, n))
+		}
+		var outChan *uint64
+		if len(q.OutChans) == 1 {
+			outChan = &q.OutChans[0]
+		}
+		payAddr := fn.None[[32]byte]()
+		if q.PayAddr == 1 {
+			payAddr = fn.Some([32]byte{1, 2, 3})
+		}
+		rt, err = ctx.router.BuildRoute(
+			fn.Some(amt), hops, outChan, int32(q.FinalDelta),
+			payAddr, fn.None[[]byte](),
+		)
+		if err != nil {
+			return c19NoRoute("BuildRoute: " + err.Error())
+		}
+
+	default:
+		panic("c19: unknown entry point " + q.Via)
 	}
 
-	payload := int64(0)
+	return c19Record(g, rt)
+}
+
+// c19Record copies the returned route field by field, with the payload
+// records of every hop, and adds the size oracles.
+func c19Record(g *testGraphInstance, rt *route.Route) verifkit.Rec {
+	// Oracles: the serialized payloads and the onion packet itself.
+	packed, onionOk := 0, 0
+	sizes := make([]int64, len(rt.Hops))
 	sp, err := rt.ToSphinxPath()
-	if err != nil {
-		payload = 1 << 30
-	} else {
-		payload = int64(sp.TotalPayloadSize())
+	if err == nil {
+		packed = 1
+		for i := range rt.Hops {
+			sizes[i] = int64(sp[i].HopPayload.NumBytes())
+		}
+		seed := sha256.Sum256([]byte("verif-session-key"))
+		sessionKey, _ := btcec.PrivKeyFromBytes(seed[:])
+		var payHash lntypes.Hash
+		_, err = sphinx.NewOnionPacket(
+			sp, sessionKey, payHash[:],
+			sphinx.DeterministicPacketFiller,
+		)
+		if err == nil {
+			onionOk = 1
+		}
 	}
 
 	hops := make([]verifkit.Rec, 0, len(rt.Hops))
 	for i, h := range rt.Hops {
+		mpp, meta, enc, bp := int64(-1), int64(-1), int64(-1), 0
+		if h.MPP != nil {
+			mpp = c19n(int64(h.MPP.TotalMsat()))
+		}
+		if h.Metadata != nil {
+			meta = int64(len(h.Metadata))
+		}
+		if h.EncryptedData != nil {
+			enc = int64(len(h.EncryptedData))
+		}
+		if h.BlindingPoint != nil {
+			bp = 1
+		}
+		var types []uint64
+		for t := range h.CustomRecords {
+			types = append(types, t)
+		}
+		sort.Slice(types, func(i, j int) bool {
+			return types[i] < types[j]
+		})
+		recs := make([]c19TLV, 0, len(types))
+		for _, t := range types {
+			recs = append(recs, c19TLV{
+				T: t, N: int64(len(h.CustomRecords[t])),
+			})
+		}
 		hops = append(hops, verifkit.Rec{
 			"chan": h.ChannelID,
 			"to":   c19Alias(g, h.PubKeyBytes),
 			"amt":  c19n(int64(h.AmtToForward)),
 			"tl":   c19n(int64(h.OutgoingTimeLock)),
 			"fee":  c19n(int64(rt.HopFee(i))),
+			"mpp":  mpp,
+			"meta": meta,
+			"enc":  enc,
+			"bp":   bp,
+			"tot":  c19n(int64(h.TotalAmtMsat)),
+			"recs": recs,
+			"size": sizes[i],
+			"amp":  c19Bit(h.AMP != nil),
 		})
 	}
 
@@ -436,7 +802,15 @@ func c19Query(ctx *pathFindingTestContext, g *testGraphInstance,
 		"totalTL":   c19n(int64(rt.TotalTimeLock)),
 		"totalFees": c19n(int64(rt.TotalFees())),
 		"recvAmt":   c19n(int64(rt.ReceiverAmt())),
-		"payload":   payload,
+		"packed":    packed,
+		"onionOk":   onionOk,
 		"hops":      hops,
 	}
+}
+
+func c19Bit(b bool) int {
+	if b {
+		return 1
+	}
+	return 0
 }
